@@ -205,8 +205,9 @@ static int vp_k_epoll_wait_common(int epfd, struct epoll_event *events, int maxe
 		rev = vp_kf[fd].ready & ((g->events & (EPOLLIN | EPOLLOUT | EPOLLRDHUP)) | EPOLLERR | EPOLLHUP);
 		if (!rev || n >= maxevents) continue;
 		events[n].events = rev;
-		events[n].data.u64 = 0;
-		events[n].data.fd = g->data_fd;
+		/* one whole-union write (the registered 64-bit user data: the back end zeroes it and sets .fd); two partial
+		 * writes would leave cbmc with an unfoldable byte_update and a symbolic fd in the caller */
+		events[n].data.u64 = (uint64_t)(uint32_t)g->data_fd;
 		n++;
 	}
 	return n;
